@@ -70,7 +70,11 @@ class Lib:
                                         'params': self.params(known), 'const': kind == 'method' and rng.random() < 0.4,
                                         'virtual': kind == 'method' and rng.random() < 0.2, 'comment': rng.random() < 0.4})
                     elif kind == 'field':
-                        members.append({'kind': 'field', 'name': 'f%d' % mid, 'type': rng.choice(INT_TYPES[:4] + ['double', 'bool'])})
+                        shape = rng.choice(['plain', 'plain', 'plain', 'array', 'fnptr', 'fnptr2', 'cstr', 'objptr', 'ptrptr'])
+                        decl = {'plain': '%s {n}' % rng.choice(INT_TYPES[:4] + ['double', 'bool']), 'array': 'int {n}[%d]' % rng.choice([1, 3, 8]),
+                                'fnptr': 'void (*{n})(int)', 'fnptr2': 'int (*{n})(double, bool)', 'cstr': 'const char *{n}',
+                                'objptr': '::%s *{n}' % rng.choice(known), 'ptrptr': 'int **{n}'}[shape]
+                        members.append({'kind': 'field', 'name': 'f%d' % mid, 'decl': decl.replace('{n}', 'f%d' % mid), 'shape': shape})
                     elif kind == 'ctor':
                         ps = self.params(known, 2)
                         for q in ps:
@@ -122,7 +126,7 @@ class Lib:
                         out.append('  %s%s%s %s%s%s;' % ('static ' if m['kind'] == 'static' else '', 'virtual ' if m['virtual'] else '', m['ret'], m['name'],
                                                        self.sig(m), ' const' if m['const'] else ''))
                     elif m['kind'] == 'field':
-                        out.append('  %s %s;' % (m['type'], m['name']))
+                        out.append('  %s;' % m['decl'])
                     elif m['kind'] == 'ctor':
                         out.append('  %s%s;' % (c['name'], self.sig(m)))
                     else:
